@@ -245,6 +245,11 @@ class ExprBuilder:
             return ("un", "Not", args[0])
         if path in LEN_CALLS and len(args) == 1:
             return ("len", args[0])
+        if path in ("std::ops::Index::index", "std::ops::IndexMut::index_mut") and len(args) == 2:
+            a1 = args[1]
+            if not (a1[0] == "agg" and "Range" in a1[1]) and not (a1[0] == "sym" and "RangeFull" in a1[1]) \
+                    and not (a1[0] == "lit" and "Range" in str(a1[2])):
+                return ("index", args[0], a1)
         if path == "subtle::ConstantTimeEq::ct_eq" and len(args) == 2:
             return ("cteq", args[0], args[1], best)
         if path == "subtle::ConstantTimeEq::ct_ne" and len(args) == 2:
